@@ -36,11 +36,18 @@ set_option maxRecDepth 4000
 namespace TinyVerif.Thread
 open TinyVerif.Gen.Thread
 
+/-! frame facts of `takeVal` -/
+@[simp] theorem takeVal_runs (x : Inst) : (takeVal x).runs = x.runs := by unfold takeVal; split <;> rfl
+@[simp] theorem takeVal_t (x : Inst) : (takeVal x).t = x.t := by unfold takeVal; split <;> rfl
+@[simp] theorem takeVal_kdone (x : Inst) : (takeVal x).kdone = x.kdone := by unfold takeVal; split <;> rfl
+@[simp] theorem takeVal_word (x : Inst) : (takeVal x).word = x.word := by unfold takeVal; split <;> rfl
+@[simp] theorem takeVal_tlsFrees (x : Inst) : (takeVal x).tlsFrees = x.tlsFrees := by unfold takeVal; split <;> rfl
+
 /-! ## tie T -/
 
 def expectedSpawnOps : List String :=
   [ -- the epilogue closure `df`
-    "tsm_init", "call_func", "write_slot", "cas", "set_tid_0", "tsm_dealloc", "tls_dealloc",
+    "tsm_init", "call_func", "write_slot", "cas", "set_tid_0", "drop_value", "tsm_dealloc", "tls_dealloc",
     -- set-up, with the mmap error path
     "box_closure", "mmap", "drop_closure", "tsm_dealloc", "ret_err", "tls_box",
     -- clone, with its error path
@@ -55,7 +62,7 @@ def casSite (f : String) : Site := ⟨f, "compare_exchange", "sync", ["false", "
 def genShapeOk : Bool :=
   spawnOps == expectedSpawnOps && panicOps == expectedPanicOps &&
   joinOps == ["wait", "read_slot", "tsm_dealloc", "forget"] &&
-  dropOps == ["cas", "is_err", "wait", "tsm_dealloc"] &&
+  dropOps == ["cas", "is_err", "wait", "drop_value", "tsm_dealloc"] &&
   -- x86-64 trampoline: clone (56), then in the child munmap (11) and exit (60)
   cloneAsmSyscalls == [56, 11, 60] &&
   joinSites == [⟨"join", "futex_wait_fast", "futex", ["UNFINISHED"], []⟩] &&
@@ -71,7 +78,8 @@ theorem gen_shape_ok : genShapeOk = true := by decide
 def genCfg : Cfg :=
   { checkClone := Gen.Thread.checkClone, mmapCleanup := Gen.Thread.mmapCleanup, initWord := Gen.Thread.initWord,
     joinExpect := Gen.Thread.joinExpect, dropExpect := Gen.Thread.dropExpect, setTidRet := Gen.Thread.setTidRet,
-    setTidPanic := Gen.Thread.setTidPanic, loadSync := true, spurious := false }
+    setTidPanic := Gen.Thread.setTidPanic, loadSync := true, spurious := false,
+    dropValH := Gen.Thread.dropValH, dropValT := Gen.Thread.dropValT }
 
 theorem gen_cfg_good : genCfg.Good := by decide
 
@@ -184,7 +192,7 @@ theorem join_wait_has_waker (c : Cfg) (hc : c.Good) (s : St) (h : Reachable c s)
   have hns : (s.inst i).t ≠ .notStarted := by
     intro h0; have := inv.started.mp h0; rw [hsp] at this; cases this
   refine ⟨hns, hk, ?_⟩
-  obtain ⟨_, _, _, _, _, c6, c7, _, _⟩ := hc
+  obtain ⟨_, _, _, _, _, c6, c7, _, _, _, _⟩ := hc
   cases ht : (s.inst i).t <;> simp_all [nextTK, stepI]
   all_goals (first | exact ⟨_, rfl⟩ | ((repeat' split) <;> exact ⟨_, rfl⟩))
 
